@@ -52,6 +52,9 @@ NodeExact == Done /\ (\E i \in 1..NT : TN[i] = qx) /\ (\E j \in 1..NP : PN[j] = 
         \/ out[2] = Q(tab[j][i]) /\ out[3] = Q(1)
         \/ out[1] = Q(tab[j][i]) /\ out[2] = Q(tab[j][i])
 ZeroBelowBothMinima == Done /\ Reg = "zero" => out[1] = Q(0) /\ out[2] = Q(0)
+\* inside a cell the two orders of the one-dimensional interpolations give the same rational (linear mode)
+BilinearOrderIrrelevant == Done /\ Mode = "linear" =>
+    ExpectedLinRO(TN, PN, tab, qx, qy, Reg, TRUE) = ExpectedLinRO(TN, PN, tab, qx, qy, Reg, FALSE)
 FitsInv == Done => Fits(out[1]) /\ Fits(out[2]) /\ Fits(out[3])
 
 Emit == (Export /\ Done) =>
